@@ -1326,9 +1326,48 @@ def records_of_one_workflow_written_concurrently(ctx: Ctx) -> None:
     ctx.notes["record_writer_interleavings"] = runs
 
 
+def generator_across_invocations_of_one_workflow(ctx: Ctx) -> None:
+    """the first random number / uuid of a workflow as GENERATED by two different invocations of it (the body and a sub-task that
+    inherits the workflow) when neither finds a record - what happens when both reach the operation at the same time.  Both must
+    generate the same value (the model's g(workflow, op, n) has no invocation in it): otherwise whichever is recorded last changes
+    what the other body sees when it is executed again."""
+    for backend in ("mem", "sqlite"):
+        env = Env(ctx.tmp, backend)
+        env.set_children({"k0": ["r", "u", "r"]})
+        top = env.new_top([["s", "k0", ["r", "u", "r"]], "r", "u", "r"])
+        run_inline(env, str(top.invocation_id), "W0", None)                     # the body: launches the sub-task, draws and records
+        wf_id = str(top.workflow.workflow_id)
+        child = env.launched(wf_id, "k0")
+        sb = env.app.state_backend
+        real_get, real_set = sb.get_workflow_data, sb.set_workflow_data
+        hidden = ("random:", "uuid:", "counter:")
+        sb.get_workflow_data = lambda w, key, default=None: default if str(key).startswith(hidden) else real_get(w, key, default)  # type: ignore[method-assign]
+        sb.set_workflow_data = lambda w, key, value: None if str(key).startswith(hidden) else real_set(w, key, value)              # type: ignore[method-assign]
+        try:
+            if child is not None:
+                run_inline(env, child, "k0", None)                                # the sub-task finds no record of the body's draws
+        finally:
+            del sb.get_workflow_data, sb.set_workflow_data
+        env.close()
+        ex = exec_table(env.trace)
+        vals: dict[str, list] = {}
+        for e in ex.values():
+            seq = [v for (i, v) in e["rets"] if not str(e["ops"][i]).startswith("s")]
+            vals.setdefault(e["tag"], []).append(seq)
+        ctx.count()
+        ctx.distinct(("generator-across-invocations", backend))
+        body, sub = (vals.get("W0") or [[]])[-1], (vals.get("k0") or [[]])[-1]
+        if child is None or not body or body != sub:
+            ctx.report("generated-value-depends-on-the-invocation", f"[{backend}] a body and a sub-task of ONE workflow each draw random, uuid, random with no record to replay: the body gets {body}, "
+                                                                    f"the sub-task {sub} - the n-th value of a workflow must not depend on which of its invocations generates it",
+                       {"family": "generator-across-invocations", "backend": backend})
+        del P.TRACE[:]
+
+
 def run(ctx: Ctx) -> None:
     lean_stage(ctx, None, THEOREMS)
     generator_across_processes(ctx)
+    generator_across_invocations_of_one_workflow(ctx)
     records_of_one_workflow_written_concurrently(ctx)
     generator_under_interleaving(ctx)
     clock_ok = P.install_clock()
